@@ -2,3 +2,4 @@
 from . import world_f  # noqa: F401
 from . import world_m  # noqa: F401
 from . import world_p  # noqa: F401
+from . import world_h  # noqa: F401
